@@ -100,12 +100,36 @@ Theorem ledger_success l n live :
   l <> LFull ->
   exists b, load_ledger l n SNone live = (b :: live, true) /\ drop_case l n (b :: live) = live.
 Proof.
-  intros Hl. destruct l; try contradiction; cbn [load_ledger drop_case app tl]; eauto.
+  intros Hl. destruct l; try contradiction; vm_compute; eauto.
 Qed.
 
 Theorem ledger_failure l n s live :
-  s <> SNone -> load_ledger l n s live = (live, false).
-Proof. intros Hs. destruct s; try contradiction; reflexivity. Qed.
+  can_stop l s = true -> load_ledger l n s live = (live, false).
+Proof.
+  intros H. destruct l, s; try discriminate H; reflexivity.
+Qed.
 
 Theorem ledger_full n s live : fst (load_ledger LFull n s live) = live.
 Proof. destruct s; reflexivity. Qed.
+
+(* every stop tag other than SNone that a loader does not contain is simply not a way to fail *)
+Theorem can_stop_table :
+  List.map (fun l => List.map (can_stop l) [SMetadata; SOpen; SAcquire; SReadFile; SFreeze; SDeser; SNone]) [LFull; LMem; LMmap; LMap] =
+  [[false; true; false; false; false; true; false];
+   [true; true; true; true; false; true; false];
+   [true; true; true; true; true; true; false];
+   [true; true; true; false; false; true; false]].
+Proof. reflexivity. Qed.
+
+(* the code of the pinned tree (no guard): a failing deserialization leaves the backend behind *)
+Theorem ledger_pinned_leaks n live :
+  ledger_of (loader_steps_pinned LMem n) SDeser live = (RHeap (capacity LMem n) :: live, false) /\
+  ledger_of (loader_steps_pinned LMmap n) SDeser live = (RMapping (capacity LMmap n) :: live, false) /\
+  ledger_of (loader_steps_pinned LMap n) SDeser live = (RMapping n :: live, false).
+Proof. repeat split. Qed.
+
+(* moving the disarming of the guard before the fallible step re-creates the leak (seeded change C09-a) *)
+Theorem ledger_early_disarm_leaks n live :
+  ledger_of [LTry SMetadata; LAcquire RFile SOpen; LAcquire (RMapping n) SAcquire; LPublish (RMapping n); LArm; LDisarm; LTry SDeser] SDeser live
+  = (RMapping n :: live, false).
+Proof. reflexivity. Qed.
